@@ -52,13 +52,23 @@ async fn main() -> anyhow::Result<()> {
     if args.stdio {
         let stdin = tokio::io::stdin();
         let stdout = tokio::io::stdout();
-        Server::new(stdin, stdout, socket).serve(service).await;
+        // Handle requests one at a time, in the order they arrive. With tower-lsp's default
+        // of four concurrent handlers, a `didChange` could be overtaken by a later one (each
+        // awaits the client's configuration and the dictionary files before it locks the
+        // document), leaving stale diagnostics, or resurrect a document after `didClose`.
+        Server::new(stdin, stdout, socket)
+            .concurrency_level(1)
+            .serve(service)
+            .await;
     } else {
         let listener = TcpListener::bind(DEFAULT_ADDRESS).await.unwrap();
         println!("Listening on {}", DEFAULT_ADDRESS);
         let (stream, _) = listener.accept().await.unwrap();
         let (read, write) = tokio::io::split(stream);
-        Server::new(read, write, socket).serve(service).await;
+        Server::new(read, write, socket)
+            .concurrency_level(1)
+            .serve(service)
+            .await;
     }
 
     Ok(())
